@@ -32,11 +32,29 @@ number of 1e-16 rad (angles) or 2^-53 (relative, lengths).  Tolerances: 2theta 3
 sums, 1 sqrt: <= 2.5 eps; Ltotal adds one rounding).  The exact products of the near-degenerate
 families (2^-80) exceed TLC's 32-bit integers: TLC supplies the small integer terms, the driver
 assembles them with Python integers and checks them against the rational products of the floats it
-actually passed.  scipp vectors are float64 only; float32 occurs only in total_beam_length(L1, L2).
+actually passed.  scipp vectors are float64 only; float32 occurs only in total_beam_length(L1, L2)
+(float32 + float32, and mixed float32 / float64 operands judged at float32 accuracy).
+
+Hardening round (HARDENING.md items 2, 4-9, 11):
+5. Layouts (BeamlineDefs!Layouts / Element, exported by BeamlineCases as "lay" records, judged by
+   Trace_Beamline!JudgeLay): every layout x shared record x pixel record; the shared roles are passed as 0-d
+   variables, the others per pixel in the memory arrangements BeamlineDefs!Memories (flat, strided, 2-d grid,
+   2-d grid whose operands list y, x in different orders); accessors on DataArray and Dataset; the
+   coordinate graph of conversion.graph.beamline with all intermediate coordinates kept, and its
+   single-purpose graphs; two_theta with the two beams in different length units; operands compared
+   bit-for-bit after the calls.  Random float "instruments" in the mixed layouts with the shared sample
+   1e-10..1e-8 from the origin ("rlay").  Every call is wrapped on its own (first failing call named).
+6. Homogeneous batches: the near-degenerate families are evaluated one call per (scale, unit, family, end of
+   the range, length ratio) so that predicates over a whole operand (allclose / all / any) become true; a
+   sub-sample of lattice pairs and family members is evaluated as 0-d variables.
+7. Second use: a sample of all cases is evaluated again at the end in shuffled order; the result objects of
+   one batch are held while a second batch of the same shape runs and only then judged.
+Results of the wrong shape and non-finite results are verdicts (result_has_wrong_shape, 2^30 error units).
 """
 
 from __future__ import annotations
 
+import json
 import math
 import os
 from fractions import Fraction
@@ -51,7 +69,8 @@ from ..tlc import require_ok, write_ndjson
 RULE = ('lattice configurations (source, sample, detector) x {24 rotations, translations, beam '
         'rescalings, swap} replayed at power-of-two scales 2^-19..2^16 and units m/mm/angstrom/km; '
         'dyadic near-degenerate families b2 = +-k b1 + 2^-e p and b2 = q + 2^-e p (q.b1 = 0), '
-        'e in {20,30,40}; seeded random float vectors with norms 1e-6..1e6.  Non-trivial = both '
+        'e in {20,30,40}; seeded random float vectors with norms 1e-6..1e6; layouts (shared 0-d / per-pixel '
+        'operands, strided / 2-d / mixed dim order, DataArray / Dataset, coordinate graphs); second use.  Non-trivial = both '
         'beams non-zero and the kernels returned; identity = (family, integers, scale, unit).')
 
 # TLC workers: the small models do not scale beyond ~8; VERIF_TLC_WORKERS lowers it on shared machines
@@ -144,27 +163,41 @@ def _call_all(src, smp, det, unit, scalar=False):
             'unit_ok': bool(unit_ok)}
 
 
-_BAD = {'returned': False, 'beams_exact': False, 'unit_ok': False, 'e_len': 0, 'inrange': False,
+_BAD = {'returned': False, 'shape_ok': False, 'beams_exact': False, 'unit_ok': False, 'e_len': 0, 'inrange': False,
         'e_tt': 0, 'e_sw': 0, 'e_acc': 0, 'e_acclen': 0}
+_SCALAR_KEYS = ('l1', 'l2', 'lt', 'lns', 'tt', 'tsw', 'a_l1', 'a_l2', 'a_lt', 'a_lns', 'a_tt')
+_VECTOR_KEYS = ('b1', 'b2', 'a_b1', 'a_b2')
 
 
-def _observe(ctx, src, smp, det, unit, eb1, eb2, ref_len, ref_ang, what, scalar=False):
-    """Run the kernels on a batch and project every element to the integer observation record of
-    the trace events.  eb1/eb2: expected beams (float arrays, exact), ref_len: per element tuple of
-    exact (L1, L2, Lns) as mpf, ref_ang: exact angle as mpf."""
+def _call(ctx, src, smp, det, unit, what, scalar=False):
+    """Run the kernels / accessors on a batch; None (and a violation) if the implementation raised."""
     n = len(src)
     try:
         if scalar:
             parts = [_call_all(src[i], smp[i], det[i], unit, scalar=True) for i in range(n)]
-            r = {k: (np.concatenate([p[k] for p in parts]) if k != 'unit_ok' else all(p[k] for p in parts))
-                 for k in parts[0]}
-        else:
-            r = _call_all(src, smp, det, unit)
+            return {k: (np.concatenate([p[k] for p in parts]) if k != 'unit_ok' else all(p[k] for p in parts))
+                    for k in parts[0]}
+        return _call_all(src, smp, det, unit)
     except Exception as e:  # noqa: BLE001
         ctx.violation(f'beamline kernels raised {type(e).__name__} ({what})',
                       {'exc': repr(e), 'src': np.asarray(src)[:2], 'smp': np.asarray(smp)[:2],
                        'det': np.asarray(det)[:2], 'unit': unit})
-        return [dict(_BAD) for _ in range(n)], None
+        return None
+
+
+def _shapes_ok(r, n):
+    return all(np.shape(r[k]) == (n,) for k in _SCALAR_KEYS) and all(np.shape(r[k]) == (n, 3) for k in _VECTOR_KEYS)
+
+
+def _judge_r(r, n, eb1, eb2, ref_len, ref_ang):
+    """Project every element of a batch result to the integer observation record of the trace events.
+    eb1/eb2: expected beams (float arrays, exact), ref_len: per element tuple of exact (L1, L2, Lns)
+    as mpf, ref_ang: exact angle as mpf.  Results of the wrong shape and non-finite results become
+    verdicts (shape_ok / 2^30 error units), never an exception of the driver."""
+    if r is None:
+        return [dict(_BAD) for _ in range(n)]
+    if not _shapes_ok(r, n):
+        return [dict(_BAD, returned=True) for _ in range(n)]
     beams_ok = ((r['b1'] == eb1).all(axis=1) & (r['b2'] == eb2).all(axis=1)
                 & (r['a_b1'] == eb1).all(axis=1) & (r['a_b2'] == eb2).all(axis=1))
     rl1 = [t[0] for t in ref_len]
@@ -181,10 +214,29 @@ def _observe(ctx, src, smp, det, unit, eb1, eb2, ref_len, ref_ang, what, scalar=
     pi_up = math.nextafter(math.pi, 4.0)  # float(pi) < pi < pi_up: results may round up to pi_up
     inr = np.array([(0.0 <= v <= pi_up) for arr_ in (r['tt'], r['tsw'], r['a_tt']) for v in arr_]
                    ).reshape(3, n).all(axis=0)
-    obs = [{'returned': True, 'beams_exact': bool(beams_ok[i]), 'unit_ok': r['unit_ok'],
-            'e_len': int(e_len[i]), 'inrange': bool(inr[i]), 'e_tt': int(e_tt[i]), 'e_sw': int(e_sw[i]),
-            'e_acc': int(e_acc[i]), 'e_acclen': int(e_acclen[i])} for i in range(n)]
+    return [{'returned': True, 'shape_ok': True, 'beams_exact': bool(beams_ok[i]), 'unit_ok': bool(r['unit_ok']),
+             'e_len': int(e_len[i]), 'inrange': bool(inr[i]), 'e_tt': int(e_tt[i]), 'e_sw': int(e_sw[i]),
+             'e_acc': int(e_acc[i]), 'e_acclen': int(e_acclen[i])} for i in range(n)]
+
+
+def _observe(ctx, src, smp, det, unit, eb1, eb2, ref_len, ref_ang, what, scalar=False):
+    r = _call(ctx, src, smp, det, unit, what, scalar=scalar)
+    obs = _judge_r(r, len(src), eb1, eb2, ref_len, ref_ang)
+    if r is not None and not obs[0]['shape_ok']:
+        r = None
     return obs, r
+
+
+class _Pool:
+    """A sample of evaluated cases (inputs + oracle values) kept for the second-use pass at the end."""
+
+    def __init__(self):
+        self.items = []
+
+    def add(self, first, unit, src, smp, det, eb1, eb2, ref_len, ref_ang):
+        self.items.append({'first': first, 'unit': unit, 'src': np.array(src), 'smp': np.array(smp),
+                           'det': np.array(det), 'eb1': np.array(eb1), 'eb2': np.array(eb2),
+                           'ref_len': ref_len, 'ref_ang': ref_ang})
 
 
 # ------------------------------------------------------------------------------ lattice pairs
@@ -227,7 +279,7 @@ def _pick_scale(i, c, c2):
     return 0
 
 
-def _replay_pairs(ctx, pairs, refs, events):
+def _replay_pairs(ctx, pairs, refs, events, pool):
     groups = {}
     for i, rec in enumerate(pairs):
         s = _pick_scale(i, rec['c'], rec['c2'])
@@ -250,6 +302,22 @@ def _replay_pairs(ctx, pairs, refs, events):
             ref_ang = [refs.angle(x['dot'], x['cr2']) for x in xs]
             obs, r = _observe(ctx, src, smp, det, unit, eb1, eb2, ref_len, ref_ang, f'lattice pair, unit {unit}')
             sides.append((xs, obs, r, src, smp, det, ref_ang))
+            if side == 'c2':
+                # the same transformed configurations once more as 0-d variables (a sub-sample): predicates
+                # over a whole operand (allclose, all, any) behave differently on a single element
+                idx = [j for j, (i, _) in enumerate(items) if i % 211 == 0]
+                if idx:
+                    sobs, _ = _observe(ctx, src[idx], smp[idx], det[idx], unit, eb1[idx], eb2[idx],
+                                       [ref_len[j] for j in idx], [ref_ang[j] for j in idx],
+                                       f'lattice configuration as scalars, unit {unit}', scalar=True)
+                    for k, j in enumerate(idx):
+                        rec = items[j][1]
+                        events.append({'ev': 'again', 'tid': len(events), 'first': 'pair', 'how': 'scalar', 'unit': unit,
+                                       'o': sobs[k], 'in': {'c': rec['c2'], 's': s}})
+                        ctx.case(nontrivial_id=('pair-scalar', items[j][0]) if sobs[k]['returned'] else None)
+                for j, (i, _) in enumerate(items):
+                    if i % 53 == 7:
+                        pool.add('pair', unit, src[j], smp[j], det[j], eb1[j], eb2[j], ref_len[j], ref_ang[j])
         (xs1, o1, r1, *_), (xs2, o2, r2, *_) = sides
         for j, (i, rec) in enumerate(items):
             if r1 is not None and r2 is not None:
@@ -267,14 +335,17 @@ def _replay_pairs(ctx, pairs, refs, events):
 
 
 # ------------------------------------------------------------------------------ near-degenerate
-def _replay_near(ctx, nears, events):
+def _replay_near(ctx, nears, events, pool):
     worst = 0
     groups = {}
     for i, rec in enumerate(nears):
         s = SCALES[i % len(SCALES)]
         unit = UNITS[(i // 3) % len(UNITS)]
-        groups.setdefault((s, unit), []).append(rec)
-    for (s, unit), items in sorted(groups.items()):
+        # one call per (scale, unit, family, end of the range, length ratio): every batch is homogeneous (all
+        # its pixels nearly parallel with equal lengths, all nearly antiparallel, ...), so a shortcut taken
+        # when a predicate holds for the WHOLE operand is taken here
+        groups.setdefault((s, unit, rec['fam'], rec['sgn'], rec['k']), []).append(rec)
+    for gi, ((s, unit, _fam, _sgn, _k), items) in enumerate(sorted(groups.items())):
         f = 2.0 ** s
         n = len(items)
         src = np.zeros((n, 3))
@@ -318,6 +389,15 @@ def _replay_near(ctx, nears, events):
         eb1 = np.array(eb1_rows)
         eb2 = np.array(eb2_rows)
         obs, r = _observe(ctx, src, smp, det, unit, eb1, eb2, ref_len, ref_ang, f'near-degenerate family, unit {unit}')
+        idx = list(range(gi % 7, n, 29)) or [0]
+        sobs, _ = _observe(ctx, src[idx], smp[idx], det[idx], unit, eb1[idx], eb2[idx], [ref_len[j] for j in idx],
+                           [ref_ang[j] for j in idx], f'near-degenerate family as scalars, unit {unit}', scalar=True)
+        for k, j in enumerate(idx):
+            events.append({'ev': 'again', 'tid': len(events), 'first': 'near', 'how': 'scalar', 'unit': unit, 'o': sobs[k],
+                           'in': {'rec': items[j], 's': s}})
+            ctx.case(nontrivial_id=('near-scalar', gi, j) if sobs[k]['returned'] else None)
+        for j in range(gi % 11, n, 17):
+            pool.add('near', unit, src[j], smp[j], det[j], eb1[j], eb2[j], ref_len[j], ref_ang[j])
         for j, rec in enumerate(items):
             if r is not None:
                 v = float(r['tt'][j])
@@ -392,7 +472,7 @@ def _gen_random(rng, n):
     return out
 
 
-def _replay_random(ctx, n, events, scalar_every=25):
+def _replay_random(ctx, n, events, pool, scalar_every=25):
     rng = ctx.rng
     triples = _gen_random(rng, n)
     worst = 0
@@ -424,6 +504,8 @@ def _replay_random(ctx, n, events, scalar_every=25):
         for j in range(len(chunk)):
             if not keep[j]:
                 continue
+            if j % 4 == 1:
+                pool.add('rand', unit, src[j], smp[j], det[j], eb1[j], eb2[j], ref_len[j], ref_ang[j])
             worst = max(worst, obs[j]['e_tt'])
             events.append({'ev': 'rand', 'tid': len(events), 'shape': 'array', 'unit': unit, 'o': obs[j],
                            'in': {'src': [float(x).hex() for x in src[j]], 'smp': [float(x).hex() for x in smp[j]],
@@ -443,25 +525,323 @@ def _replay_random(ctx, n, events, scalar_every=25):
     return worst
 
 
+# ------------------------------------------------------------------------------ layouts (broadcasting)
+MEMS = ('flat', 'strided', 'grid', 'grid_mixed_order')
+ROLES = ('src', 'smp', 'det')
+SHARED_ROLES = {'pixelwise': (), 'scalar_geometry': ('src', 'smp'), 'scalar_sample': ('smp',),
+                'pixel_source': ('smp', 'det'), 'scalars': ('src', 'smp', 'det')}  # = BeamlineDefs!SharedRoles
+
+
+def _pix_var(vals, mem, unit, flip):
+    """n per-pixel vectors in the memory arrangement `mem`; canonical pixel order = row-major (y, x)."""
+    vals = np.asarray(vals, dtype='float64')
+    n = len(vals)
+    if mem == 'flat':
+        return sc.vectors(dims=['pixel'], values=vals, unit=unit)
+    if mem == 'strided':
+        big = np.full((n, 2, 3), 7.25)
+        big[:, 0, :] = vals
+        return sc.vectors(dims=['pixel', 'lane'], values=big, unit=unit)['lane', 0]
+    g = vals.reshape(4, n // 4, 3)
+    if mem == 'grid_mixed_order' and flip:
+        return sc.vectors(dims=['x', 'y'], values=np.ascontiguousarray(g.transpose(1, 0, 2)), unit=unit)
+    return sc.vectors(dims=['y', 'x'], values=g, unit=unit)
+
+
+def _flat(v, pd, shape, vec):
+    """values of a result broadcast to the pixel dims `pd` (canonical order), flattened; raises ValueError
+    if the result has dims the operands did not have."""
+    if set(v.dims) - set(pd):
+        raise ValueError(f'result has dims {v.dims}, operands span {pd}')
+    dims = [d for d in pd if d in v.dims]
+    a = np.asarray((v.transpose(dims) if len(dims) > 1 else v).values)
+    idx = tuple(slice(None) if d in dims else None for d in pd) + ((slice(None),) if vec else ())
+    a = np.broadcast_to(a[idx] if idx else a, tuple(shape) + ((3,) if vec else ()))
+    return a.reshape(-1, 3) if vec else a.reshape(-1)
+
+
+def _call_layout(layout, mem, rows, unit, other_unit, as_dataset):
+    """One call per kernel / accessor / graph function on a batch in the given layout, each wrapped on its
+    own.  rows: per role an (n, 3) float array (rows of a shared role are all equal).  Returns
+    (results by name as flat per-pixel arrays, name:ExceptionClass of the first call that raised or '')."""
+    import scippneutron as scn
+    from scippneutron.conversion import beamline as bl
+    from scippneutron.conversion.graph import beamline as gb
+
+    n = len(rows['src'])
+    shared = SHARED_ROLES[layout]
+    if layout == 'scalars':
+        pd, shape = [], []
+    elif mem in ('flat', 'strided'):
+        pd, shape = ['pixel'], [n]
+    else:
+        pd, shape = ['y', 'x'], [4, n // 4]
+    flips = {'src': False, 'smp': True, 'det': True}
+    V = {r: (sc.vector(rows[r][0], unit=unit) if r in shared else _pix_var(rows[r], mem, unit, flips[r])) for r in ROLES}
+    before = {r: np.array(V[r].values, copy=True) for r in ROLES}
+    S, M, D = V['src'], V['smp'], V['det']
+    res, state = {}, {'raised': '', 'asym': ''}
+    inc_extra = layout == 'pixel_source'  # incident beam per pixel, scattered beam 0-d
+    sca_extra = layout == 'scalar_geometry'  # the reverse: two_theta(b2, b1) gets a per-pixel incident beam
+
+    def step(name, fn, kind, tolerate=False):
+        """kind: 'v' vector, 's' length, 'a' angle.  tolerate: the call hands two_theta an incident beam with
+        a dim its scattered beam lacks; if that raises it is recorded on its own (state['asym'], judged last)
+        and the rest of the batch is still judged."""
+        try:
+            v = fn()
+            want_dtype = sc.DType.vector3 if kind == 'v' else sc.DType.float64
+            want_unit = sc.Unit('rad') if kind == 'a' else sc.Unit(unit)
+            res[name] = (_flat(v, pd, shape, kind == 'v'), bool(v.dtype == want_dtype and v.unit == want_unit))
+            return v
+        except Exception as e:  # noqa: BLE001
+            if tolerate:
+                state['asym'] = type(e).__name__
+                state['asym_exc'] = repr(e)[:300]
+                res[name] = None
+            elif not state['raised']:
+                state['raised'] = f'{name}:{type(e).__name__}'
+                state['exc'] = repr(e)[:300]
+            return None
+
+    b1 = step('b1', lambda: bl.straight_incident_beam(source_position=S, sample_position=M), 'v')
+    b2 = step('b2', lambda: bl.straight_scattered_beam(position=D, sample_position=M), 'v')
+    step('lns', lambda: bl.total_straight_beam_length_no_scatter(source_position=S, position=D), 's')
+    if b1 is not None and b2 is not None:
+        l1 = step('l1', lambda: bl.L1(incident_beam=b1), 's')
+        l2 = step('l2', lambda: bl.L2(scattered_beam=b2), 's')
+        if l1 is not None and l2 is not None:
+            step('lt', lambda: bl.total_beam_length(L1=l1, L2=l2), 's')
+        step('tt', lambda: bl.two_theta(incident_beam=b1, scattered_beam=b2), 'a', tolerate=inc_extra)
+        step('tsw', lambda: bl.two_theta(incident_beam=b2, scattered_beam=b1), 'a', tolerate=sca_extra)
+        # the same numbers read in another length unit are a rescaled beam: the angle must not move
+        b2o = b2.copy()
+        b2o.unit = other_unit
+        step('tmix', lambda: bl.two_theta(incident_beam=b1, scattered_beam=b2o), 'a', tolerate=inc_extra)
+        # the beams handed to two_theta must still be the position differences afterwards
+        step('b1_after', lambda: b1, 'v')
+        step('b2_after', lambda: b2, 'v')
+    data = sc.scalar(1.0) if not pd else sc.ones(dims=pd, shape=shape)
+    da = sc.DataArray(data, coords={'source_position': S, 'sample_position': M, 'position': D})
+    obj = sc.Dataset({'counts': da}) if as_dataset else da
+    step('a_b1', lambda: scn.incident_beam(obj), 'v')
+    step('a_b2', lambda: scn.scattered_beam(obj), 'v')
+    step('a_l1', lambda: scn.L1(obj), 's')
+    step('a_l2', lambda: scn.L2(obj), 's')
+    step('a_lt', lambda: scn.Ltotal(obj, scatter=True), 's')
+    step('a_lns', lambda: scn.Ltotal(obj, scatter=False), 's')
+    step('a_tt', lambda: scn.two_theta(obj), 'a', tolerate=inc_extra)
+    # the coordinate graph, intermediate results kept and looked at
+    t = None
+    for targets in (['two_theta', 'Ltotal'], ['Ltotal']):
+        try:
+            t = da.transform_coords(targets, graph=gb.beamline(scatter=True), keep_intermediate=True,
+                                    keep_inputs=True, rename_dims=False)
+            break
+        except Exception as e:  # noqa: BLE001
+            if inc_extra and 'two_theta' in targets:
+                state['asym'] = type(e).__name__
+                res['g_tt'] = None
+                continue
+            if not state['raised']:
+                state['raised'] = f'graph_beamline:{type(e).__name__}'
+                state['exc'] = repr(e)[:300]
+            break
+    if t is not None:
+        for name, coord, kind in (('g_b1', 'incident_beam', 'v'), ('g_b2', 'scattered_beam', 'v'), ('g_l1', 'L1', 's'),
+                                  ('g_l2', 'L2', 's'), ('g_lt', 'Ltotal', 's'), ('g_tt', 'two_theta', 'a')):
+            if coord in t.coords or name != 'g_tt':
+                step(name, lambda c=coord: t.coords[c], kind)
+    # the single-purpose graphs of conversion.graph.beamline
+    for name, coord, graph, kind in (('f_b1', 'incident_beam', gb.incident_beam, 'v'),
+                                     ('f_b2', 'scattered_beam', gb.scattered_beam, 'v'),
+                                     ('f_l1', 'L1', gb.L1, 's'), ('f_l2', 'L2', gb.L2, 's'),
+                                     ('f_tt', 'two_theta', gb.two_theta, 'a'),
+                                     ('f_lt', 'Ltotal', lambda: gb.Ltotal(scatter=True), 's'),
+                                     ('f_lns', 'Ltotal', lambda: gb.Ltotal(scatter=False), 's')):
+        step(name, lambda c=coord, g=graph: da.transform_coords(c, graph=g(), rename_dims=False).coords[c], kind,
+             tolerate=inc_extra and name == 'f_tt')
+    kept = all(np.array_equal(np.asarray(V[r].values).view('int64'), before[r].view('int64')) for r in ROLES)
+    return res, state, kept
+
+
+_LAY_BAD = dict(_BAD, raised='', asym='', graph_beams_exact=False, e_graphlen=0, e_graph=0, e_mix=0, inputs_kept=False)
+
+
+def _observe_layout(ctx, layout, mem, rows, unit, other_unit, as_dataset, eb1, eb2, rl, ra):
+    """Evaluate a batch in a layout and project every pixel to the observation record of NumericLay."""
+    n = len(rows['src'])
+    pi_up = math.nextafter(math.pi, 4.0)
+    res, state, kept = _call_layout(layout, mem, rows, unit, other_unit, as_dataset=as_dataset)
+    if state['raised']:
+        ctx.extra.setdefault('layout_exceptions', {})[f'{layout}/{state["raised"]}'] = state.get('exc')
+    if state['asym']:
+        ctx.extra.setdefault('layout_exceptions', {})[f'{layout}/asymmetric two_theta'] = state.get('asym_exc')
+    names_len = {'l1': 0, 'l2': 1, 'lt': None, 'lns': 2}
+
+    def lens(prefix, keys):
+        out = np.zeros(n, dtype='int64')
+        for k in keys:
+            ref = [t[0] + t[1] for t in rl] if k == 'lt' else [t[names_len[k]] for t in rl]
+            out = np.maximum(out, _len_units(res[prefix + k][0], ref))
+        return out
+
+    complete = not state['raised'] and all(v is None or np.shape(v[0])[0] == n for v in res.values())
+    if not complete:
+        return [dict(_LAY_BAD, returned=True, raised=state['raised'] or 'result_of_wrong_length') for _ in range(n)], False
+    vec_ok = lambda k, e: (res[k][0] == e).all(axis=1)  # noqa: E731
+    beams_ok = (vec_ok('b1', eb1) & vec_ok('b2', eb2) & vec_ok('a_b1', eb1) & vec_ok('a_b2', eb2)
+                & vec_ok('b1_after', eb1) & vec_ok('b2_after', eb2))
+    gbeams_ok = vec_ok('g_b1', eb1) & vec_ok('g_b2', eb2) & vec_ok('f_b1', eb1) & vec_ok('f_b2', eb2)
+    e_len = lens('', ('l1', 'l2', 'lt', 'lns'))
+    e_acclen = lens('a_', ('l1', 'l2', 'lt', 'lns'))
+    e_graphlen = np.maximum(lens('g_', ('l1', 'l2', 'lt')), lens('f_', ('l1', 'l2', 'lt', 'lns')))
+    akeys = ('tt', 'tsw', 'tmix', 'a_tt', 'g_tt', 'f_tt')
+    ang = {k: (_ang_units(res[k][0], ra) if res[k] is not None else np.zeros(n, dtype='int64')) for k in akeys}
+    inr = np.array([(0.0 <= v <= pi_up) for k in akeys for v in (res[k][0] if res[k] is not None else np.zeros(n))]
+                   ).reshape(6, n).all(axis=0)
+    unit_ok = all(v[1] for v in res.values() if v is not None)
+    return [{'returned': True, 'shape_ok': True, 'raised': '', 'beams_exact': bool(beams_ok[j]), 'unit_ok': bool(unit_ok),
+             'e_len': int(e_len[j]), 'inrange': bool(inr[j]), 'e_tt': int(ang['tt'][j]), 'e_sw': int(ang['tsw'][j]),
+             'e_acc': int(ang['a_tt'][j]), 'e_acclen': int(e_acclen[j]), 'graph_beams_exact': bool(gbeams_ok[j]),
+             'e_graphlen': int(e_graphlen[j]), 'e_graph': int(max(ang['g_tt'][j], ang['f_tt'][j])),
+             'e_mix': int(ang['tmix'][j]), 'inputs_kept': bool(kept), 'asym': state['asym']} for j in range(n)], True
+
+
+def _replay_layouts(ctx, lays, refs, events):
+    groups = {}
+    for rec in lays:
+        groups.setdefault((rec['layout'], json.dumps(rec['shared'], sort_keys=True)), []).append(rec)
+    for gi, ((layout, _), items) in enumerate(sorted(groups.items())):
+        mem = MEMS[gi % len(MEMS)] if layout != 'scalars' else 'flat'
+        s = SCALES[gi % len(SCALES)]
+        unit = UNITS[(gi // 2) % len(UNITS)]
+        other_unit = UNITS[(gi // 2 + 1 + gi % 3) % len(UNITS)]
+        f = 2.0 ** s
+        # grids are 4 x n/4; the padding is not judged
+        padded = items if layout == 'scalars' else items + [items[0]] * ((-len(items)) % 4)
+        rows = {r: np.array([it['c'][r] for it in padded], dtype='float64') * f for r in ROLES}
+        eb1 = rows['smp'] - rows['src']  # exact: lattice integers times a power of two
+        eb2 = rows['det'] - rows['smp']
+        mf = G.mpf(2) ** s
+        xs = [_int_exact(it['c']) for it in padded]
+        rl = [(refs.sqrt(x['n1']) * mf, refs.sqrt(x['n2']) * mf, refs.sqrt(x['nns']) * mf) for x in xs]
+        ra = [refs.angle(x['dot'], x['cr2']) for x in xs]
+        obs, complete = _observe_layout(ctx, layout, mem, rows, unit, other_unit, gi % 3 == 0, eb1, eb2, rl, ra)
+        for j, it in enumerate(items):
+            events.append({'ev': 'lay', 'tid': len(events), 'layout': layout, 'mem': mem, 'shared': it['shared'],
+                           'pix': it['pix'], 'c': it['c'], 'x': xs[j], 's': s, 'unit': unit, 'o': obs[j],
+                           'dataset': gi % 3 == 0})
+            ctx.case(nontrivial_id=('lay', layout, mem, str(it['shared']), str(it['pix'])) if complete else None)
+
+
+def _fsub(a, b):
+    """correctly rounded a - b of two float vectors, as floats (what one float subtraction must give)"""
+    return np.array([float(Fraction(float(x)) - Fraction(float(y))) for x, y in zip(a, b)])
+
+
+def _replay_random_layouts(ctx, events, n_batches, n_pix=24):
+    """Random float 'instruments' in the mixed layouts: one source and one sample (0-d) with per-pixel
+    detectors, one sample with per-pixel sources and detectors, per-pixel sources with one detector.  In two
+    of three batches the shared sample lies a hair (1e-10..1e-8 length units) away from the origin of the
+    coordinate system next to a small beamline: almost at the origin is not at the origin."""
+    rng = ctx.rng
+    lay_cycle = ('scalar_geometry', 'scalar_geometry', 'scalar_sample', 'pixel_source')
+    for bi in range(n_batches):
+        layout = lay_cycle[bi % len(lay_cycle)]
+        mem = MEMS[(bi // len(lay_cycle)) % len(MEMS)]
+        unit = UNITS[bi % len(UNITS)]
+        other_unit = UNITS[(bi + 1 + bi % 3) % len(UNITS)]
+        small = bi % 3 != 2
+        lo, hi = (-6, -4) if small else (-3, 3)
+        sh = {'smp': _rand_unit(rng) * 10.0 ** rng.uniform(-10, -8) if small else _rand_unit(rng) * 10.0 ** rng.uniform(-3, 3)}
+        sh['src'] = sh['smp'] - _rand_unit(rng) * 10.0 ** rng.uniform(lo, hi)
+        sh['det'] = sh['smp'] + _rand_unit(rng) * 10.0 ** rng.uniform(lo, hi)
+        rows = {r: np.zeros((n_pix, 3)) for r in ROLES}
+        for j in range(n_pix):
+            px = {'smp': sh['smp'], 'src': sh['smp'] - _rand_unit(rng) * 10.0 ** rng.uniform(lo, hi),
+                  'det': sh['smp'] + _rand_unit(rng) * 10.0 ** rng.uniform(lo, hi)}
+            for r in ROLES:
+                rows[r][j] = sh[r] if r in SHARED_ROLES[layout] else px[r]
+        eb1 = np.array([_fsub(m, a) for m, a in zip(rows['smp'], rows['src'])])
+        eb2 = np.array([_fsub(d, m) for d, m in zip(rows['det'], rows['smp'])])
+        rl, ra = [], []
+        for j in range(n_pix):
+            u, w = G.fvec(eb1[j]), G.fvec(eb2[j])
+            ds = G.fvec(_fsub(rows['det'][j], rows['src'][j]))
+            ra.append(G.angle_from_pair(G.dot(u, w), G.norm2(G.cross(u, w))))
+            rl.append((G.mp_sqrt(G.norm2(u)), G.mp_sqrt(G.norm2(w)), G.mp_sqrt(G.norm2(ds))))
+        obs, complete = _observe_layout(ctx, layout, mem, rows, unit, other_unit, bi % 2 == 1, eb1, eb2, rl, ra)
+        for j in range(n_pix):
+            events.append({'ev': 'rlay', 'tid': len(events), 'layout': layout, 'mem': mem, 'unit': unit, 'o': obs[j],
+                           'sample_near_origin': small,
+                           'in': {r: [float(x).hex() for x in rows[r][j]] for r in ROLES}})
+            ctx.case(nontrivial_id=('rlay', bi, j) if complete else None)
+
+
+# ------------------------------------------------------------------------------ second use
+def _replay_again(ctx, pool, events):
+    """Item 6 of HARDENING.md: a sample of this run's own cases once more, shuffled, in other company; the
+    result objects of one batch are held while a second batch of the same shape is evaluated and only then
+    looked at (an implementation that recycles buffers or remembers the previous call shows up here).
+    Judged against the same oracle values as the first time - not against the first result."""
+    by_unit = {}
+    for it in pool.items:
+        by_unit.setdefault(it['unit'], []).append(it)
+    for unit, items in sorted(by_unit.items()):
+        ctx.rng.shuffle(items)
+        items.reverse()
+        half = len(items) // 2
+        if half == 0:
+            continue
+        batches = [items[:half], items[half:2 * half]]
+        held = []
+        for b in batches:
+            arrs = {k: np.array([it[k] for it in b]) for k in ('src', 'smp', 'det', 'eb1', 'eb2')}
+            held.append((b, arrs, _call(ctx, arrs['src'], arrs['smp'], arrs['det'], unit, f'second use, unit {unit}')))
+        for bi, (b, arrs, r) in enumerate(held):
+            obs = _judge_r(r, len(b), arrs['eb1'], arrs['eb2'], [it['ref_len'] for it in b], [it['ref_ang'] for it in b])
+            for j, it in enumerate(b):
+                events.append({'ev': 'again', 'tid': len(events), 'first': it['first'],
+                               'how': 'held_across_a_later_call' if bi == 0 else 'other_order', 'unit': unit, 'o': obs[j],
+                               'in': {'src': [float(x).hex() for x in it['src']], 'smp': [float(x).hex() for x in it['smp']],
+                                      'det': [float(x).hex() for x in it['det']]}})
+                ctx.case(nontrivial_id=('again', unit, bi, j) if obs[j]['returned'] else None)
+
+
 def _sum32(ctx, events, n):
+    """total_beam_length on float32 operands (float32 accuracy, float32 result) and on mixed
+    float32 / float64 operands (0-d + per-pixel; float32 accuracy, either float type accepted)."""
     from scippneutron.conversion import beamline as bl
 
     rng = ctx.rng
     a = np.array([10.0 ** rng.uniform(-6, 6) for _ in range(n)], dtype='float32')
     b = np.array([10.0 ** rng.uniform(-6, 6) for _ in range(n)], dtype='float32')
-    try:
-        res = bl.total_beam_length(L1=sc.array(dims=['pixel'], values=a, unit='m', dtype='float32'),
-                                   L2=sc.array(dims=['pixel'], values=b, unit='m', dtype='float32'))
-        vals, dt_ok = res.values, res.dtype == sc.DType.float32 and res.unit == sc.Unit('m')
-    except Exception as e:  # noqa: BLE001
-        ctx.violation(f'total_beam_length(float32) raised {type(e).__name__}', {'exc': repr(e)})
-        return
-    for i in range(n):
-        exact = Fraction(float(a[i])) + Fraction(float(b[i]))
-        e32 = G.relerr_units(float(vals[i]), G.to_mpf(exact), unit=2.0 ** -24)
-        events.append({'ev': 'sum32', 'tid': len(events), 'e32': e32, 'dtype_ok': bool(dt_ok),
-                       'in': [float(a[i]), float(b[i])]})
-        ctx.case(nontrivial_id=('sum32', i))
+    b64 = np.array([10.0 ** rng.uniform(-6, 6) for _ in range(n)], dtype='float64')
+    variants = (('f32+f32', lambda: (sc.array(dims=['pixel'], values=a, unit='m', dtype='float32'),
+                                     sc.array(dims=['pixel'], values=b, unit='m', dtype='float32')), a, b, ('float32',)),
+                ('f32+f64', lambda: (sc.array(dims=['pixel'], values=a, unit='m', dtype='float32'),
+                                     sc.array(dims=['pixel'], values=b64, unit='m')), a, b64, ('float32', 'float64')),
+                ('f64+f32(0-d)', lambda: (sc.array(dims=['pixel'], values=b64, unit='m'),
+                                          sc.scalar(float(a[0]), unit='m', dtype='float32')), b64, np.full(n, a[0]),
+                 ('float32', 'float64')))
+    for name, make, x, y, dtypes in variants:
+        try:
+            l1, l2 = make()
+            res = bl.total_beam_length(L1=l1, L2=l2)
+            vals = np.asarray(res.values)
+            dt_ok = str(res.dtype) in dtypes and res.unit == sc.Unit('m')
+            if vals.shape != (n,):
+                raise ValueError(f'result of shape {vals.shape}')
+        except Exception as e:  # noqa: BLE001
+            ctx.violation(f'total_beam_length({name}) raised {type(e).__name__}', {'exc': repr(e)})
+            continue
+        for i in range(n):
+            exact = Fraction(float(x[i])) + Fraction(float(y[i]))
+            e32 = G.relerr_units(float(vals[i]), G.to_mpf(exact), unit=2.0 ** -24)
+            events.append({'ev': 'sum32', 'tid': len(events), 'e32': e32, 'dtype_ok': bool(dt_ok), 'operands': name,
+                           'in': [float(x[i]).hex(), float(y[i]).hex()]})
+            ctx.case(nontrivial_id=('sum32', name, i))
 
 
 # ------------------------------------------------------------------------------ main
@@ -473,6 +853,17 @@ def _key_for(ev, clause):
         return f'{fam} (dyadic family): {clause}'
     if ev['ev'] == 'rand':
         return f'random float vectors ({ev["shape"]}): {clause}'
+    if ev['ev'] in ('lay', 'rlay'):
+        if clause.startswith('two_theta_raised_'):
+            return f'two_theta(incident_beam with a dim that scattered_beam lacks): raised {ev["o"]["asym"]}'
+        return f'layout {ev["layout"]}: {clause}'
+    if ev['ev'] == 'again':
+        # few keys: what the case was first (pair / near / rand) and how it was held is in the event
+        if ev['how'] == 'scalar':
+            return f'lattice / near-degenerate case evaluated as 0-d variables: {clause}'
+        return f'second use (again at the end, other order / result held across a later call): {clause}'
+    if ev['ev'] == 'sum32':
+        return f'total_beam_length({ev["operands"]}): {clause}'
     return f'{ev["ev"]}: {clause}'
 
 
@@ -506,17 +897,23 @@ def run(ctx):
         raise MachineryError(f'case export incomplete: {tag} vs {len(recs)} records')
     pairs = [r for r in recs if r['kind'] == 'pair']
     nears = [r for r in recs if r['kind'] == 'near']
-    ctx.extra['cases_exported'] = {'pairs': len(pairs), 'near': len(nears)}
+    lays = [r for r in recs if r['kind'] == 'lay']
+    ctx.extra['cases_exported'] = {'pairs': len(pairs), 'near': len(nears), 'layout_elements': len(lays)}
 
     events = []
     refs = _Refs()
-    w1 = _replay_pairs(ctx, pairs, refs, events)
-    w2 = _replay_near(ctx, nears, events)
-    w3 = _replay_random(ctx, 8000 if thorough else 1600, events)
+    pool = _Pool()
+    w1 = _replay_pairs(ctx, pairs, refs, events, pool)
+    w2 = _replay_near(ctx, nears, events, pool)
+    w3 = _replay_random(ctx, 8000 if thorough else 1600, events, pool)
     _sum32(ctx, events, 400 if thorough else 100)
+    _replay_layouts(ctx, lays, refs, events)
+    _replay_random_layouts(ctx, events, 96 if thorough else 24)
+    _replay_again(ctx, pool, events)
+    ctx.extra['second_use_cases'] = len(pool.items)
     ctx.extra['worst_two_theta_error_1e-16rad'] = {'lattice': int(w1), 'near_degenerate': int(w2),
                                                    'random': int(w3), 'tolerance': ANG_TOL}
-    for e in (events[0], events[len(pairs)], events[-200]):
+    for e in (events[0], events[min(len(pairs), len(events) - 1)], events[-1]):
         ctx.sample(e)
 
     # ---- 3. TLC judges every event
@@ -533,6 +930,7 @@ def run(ctx):
         ev = events[line - 1]
         if clause in ('harness_reference_differs_from_spec', 'fed_configuration_is_not_the_spec_transformation',
                       'exact_products_do_not_match_spec_terms', 'improper_configuration', 'unknown_event',
+                      'unknown_layout', 'fed_configuration_is_not_the_spec_broadcast',
                       'angle_class_changed', 'not_a_perpendicular_family'):
             raise MachineryError(f'harness and specification disagree ({clause}) on event {ev}')
         ctx.violation(_key_for(ev, clause), {'event': ev})
